@@ -7,7 +7,7 @@ use hifitime::{Duration, Unit};
 use proptest::prelude::*;
 use serde::{Deserialize, Serialize};
 
-pub const RULE: &str = "generated operand pairs / (duration, i64) / (duration, unit) with an operation tag, compared against exact i128 arithmetic then clamp; non-trivial = ns carry/borrow across a century boundary, operands of opposite sign, an operand with century field <= -2, exact result outside [MIN,MAX], result within 3 ns of a bound, or |q| > 2^32; distinct = distinct (operands, op) tuples (hash set, capped per shard: lower bound)";
+pub const RULE: &str = "generated operand pairs / (duration, i64) / (duration, unit) with an operation tag, compared against exact i128 arithmetic then clamp; non-trivial = ns carry/borrow across a century boundary, operands of opposite sign, an operand with century field <= -2, exact result outside [MIN,MAX], result within 3 ns of a bound, or |q| > 2^32; distinct = distinct (operands, op) tuples (hash set, capped per shard: lower bound); histories (c01.chain): non-trivial = at least three executed operations and the history saturates, goes below -2 centuries, changes sign or crosses a century boundary";
 
 pub const ASSUMPTIONS: &[&str] = &[
     "the signed count of a library value is centuries*NPC + nanoseconds read from to_parts() (definition in C02)",
